@@ -337,7 +337,7 @@ func genC18(t *rapid.T) c18Case {
 			Seq: rapid.Uint32().Draw(t, "seq"), Script: scripts[rapid.IntRange(0, len(scripts)-1).Draw(t, "ss")]})
 	}
 	for i := 0; i < nout; i++ {
-		v := rapid.SampledFrom([]int64{0, 1, 2, 2100000000000000, math.MaxInt64}).Draw(t, "v")
+		v := rapid.SampledFrom([]int64{0, 1, 2, 2100000000000000, math.MaxInt64, -1, math.MinInt64}).Draw(t, "v")
 		if rapid.Bool().Draw(t, "vr") {
 			v = rapid.Int64Range(0, 1000).Draw(t, "vu")
 		}
